@@ -246,7 +246,9 @@ def run(rep: Report, only=None) -> None:
                 key=f"R6|{p}",
             )
     stores = []
-    for name, fi in nm.ci.methods.items():
+    every = [(name, fi) for c in prog.mro(nm.ci.fq) if prog.classes[c].module == nm.mi.name
+             for name, fi in prog.classes[c].methods.items()]  # (incl. repository base classes)
+    for name, fi in every:
         for n in ast.walk(fi.node):
             if (
                 isinstance(n, ast.Attribute)
@@ -519,7 +521,11 @@ def check_view_calls(rep: Report, prog) -> int:
     sig_by_prop = {}
     nmi = prog.module("sym_metanet.network")
     netci = nmi.classes["Network"]
-    for pname, fi in netci.methods.items():
+    net_methods: dict = {}
+    for c in prog.mro(netci.fq):  # (the class may be split into base classes)
+        for pname, fi in prog.classes[c].methods.items():
+            net_methods.setdefault(pname, fi)
+    for pname, fi in net_methods.items():
         ra = fi.node.returns
         rn = dotted_name(ra) if ra is not None else None
         if rn in wrappers and fi.is_property():
@@ -547,6 +553,6 @@ def check_view_calls(rep: Report, prog) -> int:
                     b.reason,
                     key=f"SIG-view-call|{m.name}|{short(n, 50)}",
                 )
-    rep.floor("per-node view call sites", ncalls, 12)
+    rep.floor("per-node view call sites", ncalls, 4)
     rep.analysed["view_call_sites"] = ncalls
     return n_sites
